@@ -157,7 +157,9 @@ type StreamCli struct {
 	SubNaN  func(ctx context.Context, id int) (<-chan float64, error)
 	SubRich func(ctx context.Context, id int) (<-chan Rich, error)
 	Sub     func(ctx context.Context, id int, n int) (<-chan int, error)
-	Echo    func(ctx context.Context, tok int) (int, error)
+	// the same subscription through a client function declared without a context parameter
+	SubNC func(id int, n int) (<-chan int, error) `rpc_method:"T.Sub"`
+	Echo  func(ctx context.Context, tok int) (int, error)
 }
 
 // consumer state of one subscription on the client side
@@ -218,6 +220,8 @@ func init() {
 				// subscriptions made with a context that can never be cancelled (context.Background)
 				add("k2-l3,3-bgctx", 1, map[string]int{"k": 2, "l0": 3, "l1": 3, "mode": 0, "bg": 1})
 				add("k1-l40-bgctx", 0, map[string]int{"k": 1, "l0": 40, "mode": 0, "bg": 1})
+				// ... and through client functions that have no context parameter at all
+				add("k2-l3,3-noctx", 1, map[string]int{"k": 2, "l0": 3, "l1": 3, "mode": 0, "noctx": 1})
 				return ps
 			}
 			add("k2-l1,3-attentive", 2, map[string]int{"k": 2, "l0": 1, "l1": 3, "mode": 0})
@@ -248,6 +252,7 @@ func init() {
 			add("k2-l3,3-bgctx", 2, map[string]int{"k": 2, "l0": 3, "l1": 3, "mode": 0, "bg": 1})
 			add("k1-l40-bgctx", 1, map[string]int{"k": 1, "l0": 40, "mode": 0, "bg": 1})
 			add("k1-l3-bgctx-late", 2, map[string]int{"k": 1, "l0": 3, "mode": 1, "bg": 1})
+			add("k2-l3,3-noctx", 2, map[string]int{"k": 2, "l0": 3, "l1": 3, "mode": 0, "noctx": 1})
 			return ps
 		},
 		Body: streamBody,
@@ -261,6 +266,7 @@ type streamWorld struct {
 	cli    StreamCli
 	closer jsonrpc.ClientCloser
 	subs   []*subState
+	noctx  bool
 	ctxs   []context.Context
 	cancel []context.CancelFunc
 }
@@ -292,7 +298,13 @@ func newStreamWorld(s *vsched.Sched, k int, buffered int, reconnect bool, obeyCt
 // consume until the channel closes, and keep receiving afterwards to catch late deliveries.
 func (sw *streamWorld) subscribe(s *vsched.Sched, i, n int, consume func() bool) {
 	st := sw.subs[i]
-	ch, err := sw.cli.Sub(sw.ctxs[i], i+1, n)
+	var ch <-chan int
+	var err error
+	if sw.noctx {
+		ch, err = sw.cli.SubNC(i+1, n)
+	} else {
+		ch, err = sw.cli.Sub(sw.ctxs[i], i+1, n)
+	}
 	st.mu.Lock()
 	st.returned, st.err, st.hasChan = true, err, ch != nil
 	st.mu.Unlock()
@@ -327,6 +339,7 @@ func streamBody(s *vsched.Sched, p Param) {
 	if p.I("sync") == 1 {
 		sw.srv.syncK = k
 	}
+	sw.noctx = p.I("noctx") == 1
 	if p.I("bg") == 1 {
 		for i := range sw.ctxs {
 			sw.ctxs[i] = context.Background()
